@@ -315,7 +315,8 @@ structure Url where
   segs : FsPath
   base : Ident
   underscore : Bool          -- spelled with a leading `_`
-  /-- spelled with `.scss`: load paths are then not consulted (visitor.rs:844 `// todo`) -/
+  /-- spelled with `.scss` (tried literally and as a partial, relative first and then in every
+      load path, visitor.rs:846; for this core the same candidates as without the extension) -/
   ext : Bool
   /-- `Options::load_paths`, in order -/
   loadPaths : List FsPath
@@ -373,7 +374,7 @@ def normPath : FsPath → FsPath → FsPath
     relative to the importing file first — the file, then the partial — then every load path -/
 def candidates (u : Url) : List FsPath :=
   let stem : Ident := if u.underscore then '_' :: u.base else u.base
-  let dirs := (u.dir ++ u.segs) :: (if u.ext then [] else u.loadPaths.map (· ++ u.segs))
+  let dirs := (u.dir ++ u.segs) :: u.loadPaths.map (· ++ u.segs)
   dirs.flatMap fun d => [d ++ [stem], d ++ [('_' :: stem)]]
 
 /-- `find_import` + `Fs::canonicalize` (visitor.rs:898): the first candidate that is a file; the
